@@ -17,6 +17,9 @@ save -> cmn.WriteFileAtomic, LoadFilePV) as a micro-step machine with process cr
     middle of the rename that leaves ARBITRARY content `r` in the key file; the theorems assume every such event
     is atomic (`r` is the old or the new content), and `Props.C04.rename_atomicity_needed` shows they fail otherwise.
     Process crashes, not power loss (the directory entry is not fsync'ed by the code; see the slice's assumptions).
+  * Write errors: `Ev.writeFails n` — the write of the temp file reports an error after `n` bytes.  The code then
+    returns the error from `WriteFileAtomic` (temp file removed, key file untouched), `save()` panics, and the call
+    ends with that panic; the object keeps the fields assigned before the save (`poisoned`).
   * Ghost logs (no influence on behaviour): `out` (everything handed to callers), `signed` (every signature the
     key ever computed), `persisted` (every record that ever became the content of the key file).
   * Signatures are ideal: a signature names the message it signs.  Payloads carry their sign-bytes, the
@@ -108,10 +111,13 @@ structure St where
   signed : List (HRS × Sig)
   /-- ghost: every record that became the content of the key file, newest first -/
   persisted : List Rec
+  /-- a save failed and the call panicked: the object and the shadow hold a record the key file does not
+  (the code assigns the fields BEFORE `save()`); cleared by a restart -/
+  poisoned : Bool
 deriving DecidableEq, Repr, Inhabited
 
 def St.init : St :=
-  { disk := Rec.zero, mem := Rec.zero, shadow := Rec.zero, temp := none, pc := .idle, out := [], signed := [], persisted := [] }
+  { disk := Rec.zero, mem := Rec.zero, shadow := Rec.zero, temp := none, pc := .idle, out := [], signed := [], persisted := [], poisoned := false }
 
 /-- the translated `checkHRS` applied to the in-memory record -/
 def checkRec (m : Rec) (q : HRS) : Bool × Int :=
@@ -157,10 +163,11 @@ inductive Ev where
   | tick              -- the call in flight advances by one micro-step
   | crash             -- the process dies and restarts: memory is re-read from the key file
   | crashTorn (r : Rec)  -- the process dies INSIDE the rename system call, which leaves content `r` in the key file
+  | writeFails (n : Nat) -- the write of the temp file reports an error after `n` bytes (disk full, quota, I/O error)
 deriving DecidableEq, Repr, Inhabited
 
 /-- restart: `LoadFilePV` reads the key file into the object and copies it into the shadow -/
-def restart (s : St) : St := { s with mem := s.disk, shadow := s.disk, temp := none, pc := .idle }
+def restart (s : St) : St := { s with mem := s.disk, shadow := s.disk, temp := none, pc := .idle, poisoned := false }
 
 def step (s : St) : Ev → St
   | .req q => match s.pc with
@@ -173,6 +180,12 @@ def step (s : St) : Ev → St
       if r = s.disk then restart s
       else restart { s with disk := r, persisted := r :: s.persisted }
     | _ => restart s
+  | .writeFails _ => match s.pc with
+    -- `WriteFileAtomic` returns the error (its deferred Close/Remove drop the partial temp file, the key file is not
+    -- touched), `save()` panics with it, and the panic leaves `SignVote`/`SignProposal` before the signature is stored
+    -- into the vote; the object and the shadow keep the record they were given before the save
+    | .writeTemp q _ => { s with temp := none, pc := .release q .panicked, poisoned := true }
+    | _ => s
 
 /-- what an ATOMIC rename may leave behind when the process dies inside it: the old or the new content -/
 def Ev.atomicAt (s : St) : Ev → Prop
@@ -183,6 +196,17 @@ def Ev.atomicAt (s : St) : Ev → Prop
 def AtomicRun : St → List Ev → Prop
   | _, [] => True
   | s, e :: rest => e.atomicAt s ∧ AtomicRun (step s e) rest
+
+/-- the two hypotheses of the history theorems at one event: renames are atomic, and a caller never enters a signing
+call on an object whose save panicked (the panic ends the process: the next thing that happens to it is a restart) -/
+def Ev.admissibleAt (s : St) : Ev → Prop
+  | .crashTorn r => r = s.disk ∨ r = s.temp.getD s.disk
+  | .req _ => s.poisoned = false
+  | _ => True
+
+def Admissible : St → List Ev → Prop
+  | _, [] => True
+  | s, e :: rest => e.admissibleAt s ∧ Admissible (step s e) rest
 
 def run (s : St) (evs : List Ev) : St := evs.foldl step s
 
@@ -217,6 +241,14 @@ def finishKill (name : String) (n : Nat) : Nat → Nat → St → St × Bool
         if seen + 1 = n then (step s .crash, true)
         else finishKill name n fuel (seen + 1) (tick s)
       else finishKill name n fuel seen (tick s)
+
+/-- run the call in flight to completion; if `fails`, the write of the temp file reports an error after `n` bytes -/
+def finishFail (fails : Bool) (n : Nat) : Nat → St → St
+  | 0, s => s
+  | fuel + 1, s => match s.pc with
+    | .idle => s
+    | .writeTemp _ _ => if fails then finish fuel (step s (.writeFails n)) else finishFail fails n fuel (tick s)
+    | _ => finishFail fails n fuel (tick s)
 
 /-- a whole call without interruption -/
 def call (s : St) (q : Req) : St := finish 16 (step s (.req q))
